@@ -763,7 +763,7 @@ def evaluate_cases(ctx, group, triples, with_canary=False):
                            g['ops'][extra['op']]['d'], what))
             if 'session' in extra:
                 what = ('round %d of a session on ONE dispatcher object (time limits of the rounds: %s; this round: %s): %s'
-                        % (extra['step'] + 1, [st['sc']['timer']['kind'] for st in extra['session']['steps']],
+                        % (extra['step'] + 1, [st['sc']['timer'].get('phase') and 'one OptimisationTimer re-entered: ' + st['sc']['timer']['phase'] or st['sc']['timer']['kind'] for st in extra['session']['steps']],
                            sc['timer']['kind'], what))
             ctx.violate(group, case, what)
         if not ag:
@@ -831,7 +831,7 @@ def run(ctx):
         ctx.set_exhaustive('small-scope', True)
         evaluate_cases(ctx, 'small-scope', triples)
         triples = []
-        n_seq = ctx.budget(300, 2400)
+        n_seq = ctx.budget(240, 2400)
         for k in range(n_seq):
             n = rng.choice([0, 1, 2, 3, 4, 5, 6, 8, 10, 12]) if k % 4 else rng.randrange(13)
             force = {'dup': True} if k % 25 == 24 else None
@@ -874,7 +874,7 @@ def run(ctx):
         ctx.set_exhaustive('apply-results', False)
         check_apply(ctx, descs)
         triples = []
-        for k in range(ctx.budget(60, 400)):
+        for k in range(ctx.budget(45, 400)):
             sc = gen_scenario(rng, rng.choice([2, 3, 4, 5, 6, 8, 12]))
             rn = {'par': False, 'n_jobs': 1, 'completion': ['reversed', 'rotated', 'shuffled'][k % 3], 'seed': k}
             triples.append((sc, rn, observe(sc, rn, tmpdir)))
